@@ -6,7 +6,7 @@
    for EVERY source tree. *)
 From Coq Require Import List NArith Bool.
 Import ListNotations.
-Require Import QtlVerif.AmalgamDefs QtlVerif.AmalgamProofs.
+Require Import QtlVerif.AmalgamDefs QtlVerif.AmalgamProofs QtlVerif.AmalgamCondDefs QtlVerif.AmalgamCondProofs.
 Local Open Scope N_scope.
 
 (* included_once: no file body is emitted twice.  For arbitrary trees this is FALSE of the generator
@@ -119,3 +119,56 @@ Example C20_nonvacuous :
     [10;47;47;32;113;116;108;111;103;103;101;114;46;104;10;10;47;47;32;97;46;104;10;10;47;47;32;98;46;104;10;10;105;110;116;32;98;59;32;10;10;47;47;32;101;110;100;32;98;46;104;10;10;105;110;116;32;97;59;10;10;47;47;32;101;110;100;32;97;46;104;10;10;105;110;116;32;113;59;10;10;47;47;32;120;46;99;112;112;10;10;47;47;32;113;116;108;111;103;103;101;114;46;104;10;10;105;110;116;32;113;59;10;10;47;47;32;101;110;100;32;113;116;108;111;103;103;101;114;46;104;10;10;35;105;110;99;108;117;100;101;32;34;109;105;115;115;105;110;103;46;104;34;10;105;110;116;32;120;59;10;10]
   /\ map (map (@length N)) (emitted_files example_tree) = [[3; 8; 10]; [3; 8; 3; 3]; [3; 8; 3]; [3; 8; 5]; [3; 8; 10]]%nat.
 Proof. vm_compute. split; reflexivity. Qed.
+
+(* ---- "so header-only users get precisely the behaviour of the library build" -------------------------------------
+   The two distributions compile the same text under different macro environments (library: QTLOGGER_STATIC and
+   QTLOGGER_LIBRARY; single header: QTLOGGER_DECL_SPEC and neither of the two).  AmalgamCondDefs models what decides
+   which text a build sees: conditional groups, define/undef, local includes, pragma once; checks/c20.py runs the
+   extracted model against g++ -E on every translation unit of the real tree and evaluates [confined] for the two
+   environments.  When [confined] holds - the environments agree on every macro that a group outside the known set K
+   mentions, and the known chains (logger_global.h: QTLOGGER_EXPORT, the default of QTLOGGER_DECL_SPEC) contain nothing
+   but define/undef of macros no other group mentions - both builds enter exactly the same groups outside K, for every
+   tree, every table of opaque conditions and every pair of environments. *)
+Theorem C20_branches_confined_to_known_groups : forall K opq fs root e1 e2,
+  confined K opq fs root e1 e2 = true ->
+  filter (not_k K) (branches K opq fs root e1) = filter (not_k K) (branches K opq fs root e2)
+  /\ once (run_tu K opq fs root e1) = once (run_tu K opq fs root e2)
+  /\ too_deep (run_tu K opq fs root e1) = too_deep (run_tu K opq fs root e2).
+Proof. exact confined_sound. Qed.
+Print Assumptions C20_branches_confined_to_known_groups.
+
+Theorem C20_same_text_unless_a_condition_mentions_the_difference : forall opq fs root e1 e2,
+  confined [] opq fs root e1 e2 = true ->
+  branches [] opq fs root e1 = branches [] opq fs root e2.
+Proof. exact same_branches_unless_mentioned. Qed.
+Print Assumptions C20_same_text_unless_a_condition_mentions_the_difference.
+
+(* non-vacuity.  Macros: 1 = QTLOGGER_STATIC, 2 = QTLOGGER_LIBRARY, 3 = QTLOGGER_DECL_SPEC, 4 = QTLOGGER_EXPORT,
+   5 = QTLOGGER_NO_THREAD.  File 0 = logger_global.h (pragma once; the known chains 10/11/12 and 13), file 1 = a source
+   that includes it twice and has a feature group (20/21).  Library environment [1;2], single-header environment [3]. *)
+Definition global_h : list line :=
+  [LOnce; LIf 10 (CDef 1); LDefine 4; LElif 11 (CDef 2); LDefine 4; LElse 12; LDefine 4; LEndif;
+   LIf 13 (CNot (CDef 3)); LDefine 3; LEndif].
+Definition good_source : list line :=
+  [LInclude 0; LInclude 0; LIf 20 (CNot (CDef 5)); LElse 21; LEndif].
+Definition known_groups : list N := [10; 11; 12; 13]%N.
+Example C20_confined_nonvacuous :
+  confined known_groups (fun _ => false) [global_h; good_source] 1 [1; 2]%N [3]%N = true
+  /\ branches known_groups (fun _ => false) [global_h; good_source] 1 [1; 2]%N = [10; 13; 20]%N
+  /\ branches known_groups (fun _ => false) [global_h; good_source] 1 [3]%N = [12; 20]%N.
+Proof. vm_compute. repeat split; reflexivity. Qed.
+
+(* the shape of an instance() split on QTLOGGER_STATIC: not confined, and the two builds do enter different groups *)
+Definition split_source : list line :=
+  [LInclude 0; LIf 30 (CDef 1); LElse 31; LEndif].
+Example C20_split_on_static_is_not_confined :
+  confined known_groups (fun _ => false) [global_h; split_source] 1 [1; 2]%N [3]%N = false
+  /\ filter (not_k known_groups) (branches known_groups (fun _ => false) [global_h; split_source] 1 [1; 2]%N) = [30]%N
+  /\ filter (not_k known_groups) (branches known_groups (fun _ => false) [global_h; split_source] 1 [3]%N) = [31]%N.
+Proof. vm_compute. repeat split; reflexivity. Qed.
+
+(* a known chain that starts to guard something else (here: another group) is flagged as well *)
+Example C20_known_chain_with_foreign_content_is_not_confined :
+  confined known_groups (fun _ => false)
+    [[LOnce; LIf 10 (CDef 1); LIf 40 (CDef 5); LEndif; LEndif]; good_source] 1 [1; 2]%N [3]%N = false.
+Proof. vm_compute. reflexivity. Qed.
